@@ -11,7 +11,8 @@ API
                                                             colon_headers: constructs whose header may (rarely)
                                                             contain a ':' such as @if xs[0:1]:
   print_story(story, style=BASE) -> Printed                 .text (str), .lines (list[Line])
-  Style(legacy=frozenset(), indent=(), hash_at=frozenset(), trailing=None, comment='note', join_indent='    ')
+  Style(legacy=frozenset(), indent=(), hash_at=frozenset(), trailing=None, comment='note', join_indent='    ',
+        hash_col0=False, hash_where='every')
   BASE                                                      the baseline style: @-forms, no comments, bodies
                                                             not indented, join blocks indented by 4 spaces
   line_kinds(printed) -> set[(kind, ctx)]                   the commentable line kinds present
@@ -27,8 +28,12 @@ AST (dataclasses; `kind` is the class name)
     Text(src, glue=False, tags=[])      one content line; `src` is source text which may contain {expr},
                                         {c ? a | b}, `\\//` (escaped slashes) and `//=`
     Blank()
-    Stmt(code)                          ~ code            (single line)
-    PyBlock(lines)                      @py: ... @endpy   (lines keep their relative indentation)
+    Stmt(code)                          ~ code            (code may contain '\n': a multi-line statement whose first
+                                        line ends in an open bracket; the following lines are Python continuation
+                                        lines with their relative indentation, the last one closes the bracket)
+    PyBlock(lines)                      @py: ... @endpy   (lines keep their relative indentation; '' is a blank line,
+                                        a non-empty line of blanks/tabs is a whitespace-only line and is part of the
+                                        block as written)
     If(branches: [(cond|None, [Item])]) first cond is the @if, None is @else (last)
     For(var, coll, body)
     Jump(target, args='')
@@ -44,24 +49,35 @@ Styles (what the printer can vary without changing the AST)
   legacy     subset of {'if','for','py'}: <<if c>>/<<elif c>>/<<else>>/<<endif>>, <<for x in c>>/<<endfor>>,
              <<py ... >> instead of the @-forms
   indent     tuple of (construct, prefix) with construct in {'if','for','py'}: bodies of that construct are
-             indented by `prefix` per nesting level (blank lines stay empty); join_indent is the (mandatory,
+             indented by `prefix` per nesting level (blank lines stay empty, whitespace-only lines of a Python
+             block stay as written - the convention of uniform_indent_invisible in Props/C17.v); the continuation
+             lines of a multi-line `~` statement are indented with the statement; join_indent is the (mandatory,
              non-empty) indentation of join blocks
   hash_at    positions where a `# comment` line is inserted before every item and at the end of the body:
              'file-top' (before the first passage), 'top', 'if', 'for', 'join'
+  hash_where 'every' (as above) or 'first' (only before the first item of each body)
+  hash_col0  the `# comment` lines of @if/@for bodies are written at column 0 whatever the indentation of the
+             body (not applied to join blocks, where a column-0 line ends the block by design)
   trailing   (kind, ctx): ` // comment` appended to every line of that kind in that context
 
 Line kinds (Line.kind): start, header, header+params, header+tags, header+params+tags, text, text-glue, stmt,
-  jump, jump+args, choice, choice-join, @render, @input, @hook, @unhook, @join,
-  @if @elif @else @endif @for @endfor @py: @endpy, <<if>> <<elif>> <<else>> <<endif>> <<for>> <<endfor>> <<py >>,
-  and the non-commentable py-body, blank, hash.
+  stmt-open (first line of a multi-line statement), jump, jump+args, choice, choice-join, @render, @input, @hook,
+  @unhook, @join, @if @elif @else @endif @for @endfor @py: @endpy, <<if>> <<elif>> <<else>> <<endif>> <<for>>
+  <<endfor>> <<py >>, and the non-commentable py-body, stmt-cont (Python continuation line), blank, hash.
 
 Generator guarantees (so that style variants are comparable): a top-level Blank never directly follows a
 join choice (the parser would move it between block and passage depending on a comment line in between);
-text never starts with a character that starts another line kind; `//` occurs only as `\\//` or `//=`;
-`^` only in tags at the end of a line; no multi-line `~` statements; calls match the callee's parameters.
+text never starts with a character that starts another line kind; on story lines `//` occurs only as `\\//` or
+`//=` (on the continuation lines of a multi-line `~` statement and in Python blocks it is Python's floor division);
+`^` only in tags at the end of a line; calls match the callee's parameters.  Multi-line `~` statements: the first
+line ends in `[`, `{` or `(` (what directives.extract_multiline_expression continues), brackets inside string
+literals are balanced, continuation lines never start with `#`; inside join blocks only shapes whose continuation
+lines do not start with `+`/`*` and contain no braces are generated.  Python blocks are valid Python after
+removing the common indentation (checked with ast.parse by the generator and by the shrinker).
 """
 from __future__ import annotations
 
+import ast
 import collections
 import copy
 from dataclasses import dataclass, field, asdict
@@ -218,6 +234,8 @@ class Style:
     trailing: Optional[tuple] = None
     comment: str = "note"
     join_indent: str = "    "
+    hash_col0: bool = False
+    hash_where: str = "every"
 
     def unit(self, construct):
         for c, p in self.indent:
@@ -243,7 +261,7 @@ class Printed:
     lines: list
 
 
-NOT_COMMENTABLE = {"py-body", "blank", "hash"}
+NOT_COMMENTABLE = {"py-body", "stmt-cont", "blank", "hash"}
 
 
 class _Printer:
@@ -256,16 +274,18 @@ class _Printer:
             text = text + " // " + self.st.comment
         self.out.append(Line(indent + text, kind, ctx, indent))
 
-    def hash(self, pos, indent):
-        if pos in self.st.hash_at:
+    def hash(self, pos, indent, first=True):
+        if pos in self.st.hash_at and (first or self.st.hash_where == "every"):
+            if self.st.hash_col0 and pos in ("if", "for"):
+                indent = ""
             self.out.append(Line(indent + "# " + self.st.comment, "hash", pos, indent))
 
     # -- items --
     def body(self, items, ctx, indent):
-        for it in items:
-            self.hash(ctx, indent)
+        for n, it in enumerate(items):
+            self.hash(ctx, indent, n == 0)
             self.item(it, ctx, indent)
-        self.hash(ctx, indent)
+        self.hash(ctx, indent, not items)
 
     def item(self, it, ctx, indent):
         st = self.st
@@ -279,13 +299,22 @@ class _Printer:
         elif k == "Blank":
             self.out.append(Line("", "blank", ctx, ""))
         elif k == "Stmt":
-            self.emit(indent, "~ " + it.code, "stmt", ctx)
+            first, *cont = it.code.split("\n")
+            if not cont:
+                self.emit(indent, "~ " + first, "stmt", ctx)
+            else:
+                self.emit(indent, "~ " + first, "stmt-open", ctx)
+                for ln in cont:
+                    self.out.append(Line((indent + ln) if ln.strip() else "", "stmt-cont", ctx,
+                                         indent if ln.strip() else ""))
         elif k == "PyBlock":
             legacy = "py" in st.legacy
             self.emit(indent, "<<py" if legacy else "@py:", "<<py" if legacy else "@py:", ctx)
             bi = indent + st.unit("py")
             for ln in it.lines:
-                self.out.append(Line((bi + ln) if ln.strip() else "", "py-body", "py-legacy" if legacy else "py", bi))
+                # blank lines stay empty and whitespace-only lines stay as written, whatever the indentation
+                self.out.append(Line((bi + ln) if ln.strip() else ln, "py-body", "py-legacy" if legacy else "py",
+                                     bi if ln.strip() else ""))
             self.emit(indent, ">>" if legacy else "@endpy", ">>" if legacy else "@endpy", ctx)
         elif k == "If":
             legacy = "if" in st.legacy
@@ -323,11 +352,11 @@ class _Printer:
             if it.target == "@join":
                 self.emit(indent, s, "choice-join", ctx)
                 bi = indent + st.join_indent
-                for b in (it.block or []):
-                    self.hash("join", bi)
+                for n, b in enumerate(it.block or []):
+                    self.hash("join", bi, n == 0)
                     self.item(b, "join", bi)
                 if it.block:
-                    self.hash("join", bi)
+                    self.hash("join", bi, False)
             else:
                 self.emit(indent, s, "choice", ctx)
         elif k == "Render":
@@ -421,14 +450,62 @@ def constructs(story: Story):
                     c["Text+inline-cond"] += 1
                 if "\\//" in it.src:
                     c["Text+escaped-slashes"] += 1
-            elif k == "Stmt" and "//=" in it.code:
-                c["Stmt+floordiv-assign"] += 1
+            elif k == "Stmt":
+                if "//=" in it.code:
+                    c["Stmt+floordiv-assign"] += 1
+                if "\n" in it.code:
+                    cont = it.code.split("\n")[1:]
+                    c["Stmt+multiline"] += 1
+                    c[f"Stmt+multiline@{ctx}"] += 1
+                    if any("//" in l for l in cont):
+                        c["Stmt+multiline+floordiv-on-continuation"] += 1
+                        c[f"Stmt+multiline+floordiv-on-continuation@{ctx}"] += 1
+                    if any("->" in l or "<>" in l for l in cont):
+                        c["Stmt+multiline+arrow-or-glue-in-string"] += 1
+                    if any(l.lstrip()[:2] in ("+ ", "* ", "- ") for l in cont):
+                        c["Stmt+multiline+leading-operator"] += 1
+            elif k == "PyBlock":
+                for tag in py_shape(it.lines):
+                    c["PyBlock+" + tag] += 1
+                    if ctx != "top":
+                        c[f"nested:PyBlock+{tag}@{ctx}"] += 1
             elif k == "If":
                 c["If-branches"] += len(it.branches)
             c[name] += 1
             if ctx != "top":
                 c[f"nested:{name}@{ctx}"] += 1
     return c
+
+
+def is_ws_only(line: str) -> bool:
+    return line != "" and line.strip() == ""
+
+
+def py_shape(lines):
+    """Structural tags of the body of a Python block (evidence and signatures)."""
+    tags = []
+    real = [i for i, l in enumerate(lines) if l.strip()]
+    if lines and lines[0] == "":
+        tags.append("leading-blank")
+    if lines and lines[-1] == "" and real:
+        tags.append("trailing-blank")
+    if real and any(not lines[i].strip() for i in range(real[0], real[-1])):
+        tags.append("blank-inside")
+    if any(is_ws_only(l) for l in lines):
+        tags.append("ws-only-line")
+    if any(l.strip() and l[0] in " \t" for l in lines):
+        tags.append("nested-indentation")
+    return tags
+
+
+def py_body_tags(story: Story):
+    """The blank-line shapes of the Python blocks of a story that take part in signatures."""
+    tags = set()
+    for p in story.passages:
+        for it, _ in walk(p.body):
+            if isinstance(it, PyBlock):
+                tags.update(t for t in py_shape(it.lines) if t in ("leading-blank", "ws-only-line"))
+    return sorted(tags)
 
 
 def has_block(story: Story) -> bool:
@@ -506,7 +583,63 @@ def gen_text(rng, ctx):
     return t
 
 
-def gen_stmt(rng):
+# elements of multi-line statements: Python operators and string contents that look like bardic syntax
+ML_NUM = ["n // 2", "n", "m", "hp + 1", "gold // (m + 1)", "len(xs)", "n ^ m", "max(n, m) // 3", "(n + m) // 2"]
+ML_ANY = ML_NUM + ['"go -> Hall"', '"x <> y"', '"left<>"', '"50/50"', '"[ok]"', '"a // b"', "[n // 2, m]", "(n, m)"]
+ML_SHAPES = ["list", "list", "list-close-on-last", "dict", "sum", "augmented", "call", "call", "nested", "open-tail"]
+ML_SHAPES_JOIN = ["list", "list-close-on-last", "call"]
+
+
+def python_ok(code: str) -> bool:
+    try:
+        ast.parse(code)
+        return True
+    except SyntaxError:
+        return False
+
+
+def gen_multiline_stmt(rng, ctx):
+    """A `~` statement continued over several lines: the first line ends in an open bracket."""
+    rel = rng.choice(["    ", "    ", "  ", "\t", ""])      # relative indentation of the continuation lines
+    v = rng.choice(["vals", "halves", "parts"])
+    iv = rng.choice(INT_VARS)
+    shape = rng.choice(ML_SHAPES_JOIN if ctx == "join" else ML_SHAPES)
+    pool = [e for e in ML_ANY if "{" not in e] if ctx == "join" else ML_ANY
+    elems = [rng.choice(pool) for _ in range(rng.randint(1, 3))]
+    nums = [rng.choice(ML_NUM) for _ in range(rng.randint(2, 3))]
+    close_rel = "" if rng.random() < 0.8 else rel
+    if shape == "list":
+        lines = [f"{v} = ["] + [rel + e + "," for e in elems] + [close_rel + "]"]
+    elif shape == "list-close-on-last":
+        lines = [f"{v} = ["] + [rel + e + "," for e in elems[:-1]] + [rel + elems[-1] + "]"]
+    elif shape == "dict":
+        lines = ["d = {"] + [rel + f'"{k}": {e},' for k, e in zip(("k", "half", "w"), elems)] + [close_rel + "}"]
+    elif shape in ("sum", "augmented"):
+        ops = [rng.choice(["+", "*", "-", "//"]) for _ in nums[1:]]
+        if rng.random() < 0.5:        # operator first on the continuation line (looks like a choice / a comment)
+            body = [rel + nums[0]] + [rel + o + " " + t for o, t in zip(ops, nums[1:])]
+        else:                         # operator last
+            body = [rel + t + " " + o for t, o in zip(nums, ops)] + [rel + nums[-1]]
+        lines = [f"{iv} = (" if shape == "sum" else f"{iv} += ("] + body + [close_rel + ")"]
+    elif shape == "call":
+        if rng.random() < 0.5:
+            lines = [f"{iv} = max("] + [rel + t + "," for t in nums] + [close_rel + ")"]
+        else:
+            lines = ["xs.append(", rel + nums[0], close_rel + ")"]
+    elif shape == "nested":
+        lines = [f"{v} = [", rel + "[" + nums[0] + ",", rel + " " + nums[1] + "],", rel + "[1, 2],", close_rel + "]"]
+    else:  # open-tail: more than one bracket left open by the first line
+        lines = ['d = {"k": ['] + [rel + e + "," for e in elems] + [close_rel + "]}"]
+    if ctx != "join" and len(lines) > 3 and rng.random() < 0.1:
+        lines.insert(2, "")           # Python allows blank lines inside brackets
+    code = "\n".join(lines)
+    assert python_ok(code), code
+    return Stmt(code)
+
+
+def gen_stmt(rng, ctx="top", multiline=0.3):
+    if rng.random() < multiline:
+        return gen_multiline_stmt(rng, ctx)
     v = rng.choice(INT_VARS)
     return Stmt(rng.choice([
         f"{v} = {rng.randint(0, 20)}", f"{v} += 1", f"{v} -= 2", f"{v} //= 2", f"{v} = {v} * 2 + 1",
@@ -522,6 +655,45 @@ PY_BLOCKS = [
     ["n //= 2", "", "m = n"],
     ["def f(a):", "    if a:", "        return 1", "    return 0", "r = f(n)"],
 ]
+
+
+PY_FLAT = ["x = 1", "total = 0", "half = n // 2", "n //= 2", 'msg = "go -> Hall"', 'note = "a <> b"',
+           "# python comment", "m = n", 'url = "http://example.org"', "big = n > 1  # why", "ratio = gold // (m + 1)"]
+PY_COMPOUND = [
+    ["for v in [1, 2]:", "    total += v"],
+    ["if n > 1:", "    big = True", "else:", "    big = False"],
+    ["def f(a):", "    if a:", "        return 1", "    return 0", "r = f(n)"],
+    ["for v in xs:", "    if v:", "        total += v // 2", "", "    m = v"],
+    ["if flag:", "\tn = 1", "else:", "\tn = 2"],
+    ["while n > 10:", "    n //= 2"],
+    ["xs = [", "    n // 2,", "    m,", "]"],
+    ["for v in xs:", "    # inner comment", "    if v > 1:", "        m = v // 2", "    ", "    n = m"],
+]
+WS_ONLY = ["  ", "    ", "\t", " "]
+
+
+def gen_py_block(rng):
+    """The lines of a Python block: statements and compound statements (nested indentation), optionally with blank
+    lines first/last/in between and with whitespace-only lines."""
+    if rng.random() < 0.2:
+        return list(rng.choice(PY_BLOCKS))
+    lines = []
+    r = rng.random()
+    if r < 0.35:
+        lines += [""] * rng.choice([1, 1, 2])
+    elif r < 0.40:
+        lines.append(rng.choice(WS_ONLY))
+    for n in range(rng.randint(1, 3)):
+        if n and rng.random() < 0.5:
+            lines.append("" if rng.random() < 0.75 else rng.choice(WS_ONLY))
+        lines += [rng.choice(PY_FLAT)] if rng.random() < 0.5 else list(rng.choice(PY_COMPOUND))
+    r = rng.random()
+    if r < 0.30:
+        lines += [""] * rng.choice([1, 1, 2])
+    elif r < 0.34:
+        lines.append(rng.choice(WS_ONLY))
+    assert python_ok("\n".join(lines)), lines
+    return lines
 
 
 def gen_render(rng):
@@ -586,9 +758,9 @@ def gen_block_item(rng, sigs, depth, ctx, colon=()):
     if r < 0.46:
         return Blank()
     if r < 0.60:
-        return gen_stmt(rng)
+        return gen_stmt(rng, ctx)
     if r < 0.65:
-        return PyBlock(list(rng.choice(PY_BLOCKS)))
+        return PyBlock(gen_py_block(rng))
     if r < 0.70:
         return gen_render(rng)
     if r < 0.73:
@@ -630,7 +802,7 @@ def gen_join_block(rng, sigs):
         if r < 0.55:
             out.append(gen_text(rng, "join"))
         elif r < 0.8:
-            out.append(gen_stmt(rng))
+            out.append(gen_stmt(rng, "join", multiline=0.2))
         elif r < 0.9:
             out.append(Hook("turn_end", rng.choice(sigs)[0], remove=rng.random() < 0.4))
         elif out:
@@ -649,9 +821,9 @@ def gen_top_items(rng, sigs, depth, n, colon=()):
         elif r < 0.40:
             out.append(Blank())
         elif r < 0.54:
-            out.append(gen_stmt(rng))
+            out.append(gen_stmt(rng, "top"))
         elif r < 0.60:
-            out.append(PyBlock(list(rng.choice(PY_BLOCKS))))
+            out.append(PyBlock(gen_py_block(rng)))
         elif r < 0.74:
             out.append(gen_if(rng, sigs, depth, colon))
         elif r < 0.84:
@@ -784,26 +956,59 @@ def _edits(cur: Story):
         cand = copy.deepcopy(cur)
         cand.start = None
         yield cand
-    # simplify leaves
+    # simplify leaves (several candidates per leaf, the simplest first)
     for bi in range(nb):
         for j, it in enumerate(_bodies(cur)[bi]):
-            simpler = None
-            if isinstance(it, Text) and (it.src != "Hello" or it.tags):
-                simpler = Text("Hello", it.glue, [])
-            elif isinstance(it, Stmt) and it.code != "n = 1":
-                simpler = Stmt("n = 1")
-            elif isinstance(it, PyBlock) and it.lines != ["x = 1"]:
-                simpler = PyBlock(["x = 1"])
-            elif isinstance(it, Choice) and (it.cond is not None or it.tags or it.text != "Go"):
-                simpler = Choice(it.sticky, None, "Go", it.target, it.args, [], it.block)
-            elif isinstance(it, If) and any(c not in (None, "flag") for c, _ in it.branches):
-                simpler = If([(None if c is None else "flag", b) for c, b in it.branches])
-            elif isinstance(it, For) and (it.var, it.coll) != ("i", "xs"):
-                simpler = For("i", "xs", it.body)
-            if simpler is not None:
+            for simpler in _simpler_leaves(it):
                 cand = copy.deepcopy(cur)
                 _bodies(cand)[bi][j] = copy.deepcopy(simpler)
                 yield cand
+
+
+MIN_MULTILINE = ["vals = [\n    1,\n]", "vals = [\n    n // 2,\n]"]
+
+
+def _simpler_leaves(it):
+    if isinstance(it, Text) and (it.src != "Hello" or it.tags or it.glue):
+        yield Text("Hello", False, [])
+        if it.glue and (it.src != "Hello" or it.tags):
+            yield Text("Hello", True, [])
+    elif isinstance(it, Stmt) and it.code != "n = 1":
+        yield Stmt("n = 1")
+        if "\n" in it.code:
+            for m in MIN_MULTILINE:
+                if it.code == m:
+                    return
+                yield Stmt(m)
+            lines = it.code.split("\n")
+            for k in range(len(lines) - 1, 0, -1):          # drop one continuation line
+                code = "\n".join(lines[:k] + lines[k + 1:])
+                if python_ok(code) and "\n" in code and code.split("\n")[0].rstrip()[-1:] in "[{(":
+                    yield Stmt(code)
+    elif isinstance(it, PyBlock) and it.lines != ["x = 1"]:
+        yield PyBlock(["x = 1"])
+        ls = it.lines
+        blanks = [l for l in ls if not l.strip()]
+        if blanks and len(blanks) + 1 < len(ls):            # one statement, the blank / whitespace-only lines kept
+            yield PyBlock(["x = 1"] + blanks)
+            yield PyBlock(blanks + ["x = 1"])
+        for k in range(len(ls) - 1, -1, -1):                # drop one line (a real statement stays, valid Python)
+            rest = ls[:k] + ls[k + 1:]
+            if any(l.strip() for l in rest) and python_ok("\n".join(rest)) and \
+                    not (rest[0].strip() and rest[0][0] in " \t"):
+                yield PyBlock(rest)
+        for k, l in enumerate(ls):
+            if l.strip() and l.strip() != "x = 1" and not l.rstrip().endswith(":"):
+                ind = l[:len(l) - len(l.lstrip())]
+                rest = ls[:k] + [ind + "x = 1"] + ls[k + 1:]
+                if python_ok("\n".join(rest)):
+                    yield PyBlock(rest)
+    elif isinstance(it, Choice) and (it.cond is not None or it.tags or it.text != "Go"):
+        yield Choice(it.sticky, None, "Go", it.target, it.args, [], it.block)
+    elif isinstance(it, If) and any(c not in (None, "flag") for c, _ in it.branches):
+        yield If([(None if c is None else "flag", b) for c, b in it.branches])
+    elif isinstance(it, For) and (it.var, it.coll) != ("i", "xs"):
+        yield For("i", "xs", it.body)
 
 
 def shrink(story: Story, still_fails, budget=400) -> Story:
